@@ -347,7 +347,7 @@ fn block_case(input: &Value) -> Value {
         }
     };
     let _ = original.header.merkle_root.to_byte_array();
-    json!({"fn": "block", "n": n, "m": m, "case": input["case"], "wit": input["wit"], "rootSame": root_same, "commit": if commit_self { "self" } else { "original" },
+    json!({"fn": "block", "n": n, "m": m, "case": input["case"], "wit": input["wit"].as_str().unwrap_or("same"), "rootSame": root_same, "commit": if commit_self { "self" } else { "original" },
            "out": {"verdict": verdict, "admitted": admitted}})
 }
 
